@@ -127,6 +127,15 @@ Eval(m, e) ==
   CASE e.k = "lit" -> e.v
     [] e.k = "var" -> LookupVar(m, e.n)
     [] e.k = "refarg" -> [t |-> "ref", v |-> e.n]        \* the argument for a `ref` parameter: the variable itself
+    \* a call of a PURE function (its body is `~ return expr`) anywhere inside an expression: the value of the return
+    \* expression with the parameters bound; that the function was entered is counted by the statement (Calls below)
+    [] e.k = "pcall" ->
+         LET fn == Knot(e.f)
+             vals == [i \in 1..Len(e.args) |-> Eval(m, e.args[i])]
+             bound == [n \in {fn.params[i] : i \in 1..Len(fn.params)} |-> vals[CHOOSE i \in 1..Len(fn.params) : fn.params[i] = n]]
+             a == CurAct(m) IN
+         IF \E i \in 1..Len(vals) : vals[i].t = "error" THEN vals[CHOOSE i \in 1..Len(vals) : vals[i].t = "error"]
+         ELSE Eval(SetAct(m, [a EXCEPT !.temps = bound]), Body(fn.body)[1].e)
     [] e.k = "cnt" -> I(Count(m, e.n))
     [] e.k = "ts"  -> I(IF e.n \in DOMAIN m.tof THEN m.turn - m.tof[e.n] ELSE -1)
     \* (the same asked of the knot a variable holds: READ_COUNT(x), TURNS_SINCE(x) with x a divert target value)
@@ -145,6 +154,19 @@ Unknown(m, e) ==
     [] e.k = "u" -> Unknown(m, e.a)
     [] e.k = "b" -> Unknown(m, e.a) \o Unknown(m, e.b)
     [] OTHER -> <<>>
+
+\* the pure functions an expression calls, in evaluation order (arguments first, then the function, then what its
+\* return expression calls): each call enters the function once - a visit
+RECURSIVE Calls(_)
+RECURSIVE CallsOfAll(_, _)
+CallsOfAll(es, i) == IF i > Len(es) THEN <<>> ELSE Calls(es[i]) \o CallsOfAll(es, i + 1)
+Calls(e) ==
+  CASE e.k = "pcall" -> CallsOfAll(e.args, 1) \o <<e.f>> \o Calls(Body(Knot(e.f).body)[1].e)
+    [] e.k = "u" -> Calls(e.a)
+    [] e.k = "b" -> Calls(e.a) \o Calls(e.b)
+    [] OTHER -> <<>>
+RECURSIVE VisitSeq(_, _)
+VisitSeq(m, fs) == IF fs = <<>> THEN m ELSE VisitSeq(Visit(m, Head(fs)), Tail(fs))
 
 \* how a value is printed
 ValChars(v) ==
@@ -276,9 +298,11 @@ PopFrame(m) ==
 
 \* generate the choices of a block, in order
 RECURSIVE GenChoices(_, _, _, _)
-GenChoices(m, cs, i, rest) ==
-  IF i > Len(cs) THEN m
+GenChoices(m0, cs, i, rest) ==
+  IF i > Len(cs) THEN m0
   ELSE LET c == cs[i]
+           \* (all conditions of a choice are evaluated, whatever the earlier ones gave: their calls are made)
+           m == VisitSeq(m0, CallsOfAll(c.conds, 1))
            condsOk == \A j \in 1..Len(c.conds) : TruthyV(Eval(m, c.conds[j]))
            start == StrOf(m, c.start, 1)
            only == StrOf(m, c.only, 1)
@@ -314,13 +338,13 @@ ExtCall(m, s) ==
 Exec(m, s) ==
   CASE s.k = "s"   -> Advance(Emit(m, O!T(s.v)))
     [] s.k = "p"   -> LET v == Eval(m, s.e)
-                          mw == [m EXCEPT !.warns = m.warns \o Unknown(m, s.e)] IN
+                          mw == VisitSeq([m EXCEPT !.warns = m.warns \o Unknown(m, s.e)], Calls(s.e)) IN
                       IF v.t = "error" THEN Fail(mw, v.v) ELSE Advance(Emit(mw, O!T(ValChars(v))))
     [] s.k = "g"   -> Advance(Emit(m, O!GLUE))
     [] s.k = "nl"  -> Advance(Emit(m, O!NL))
     [] s.k = "tag" -> Advance(Emit(m, O!TAG(StrOf(m, s.b, 1).text)))
     [] s.k = "set" -> LET v == Eval(m, s.e) IN
-                      IF v.t = "error" THEN Fail(m, v.v) ELSE Advance(Assign(m, s.x, v))
+                      IF v.t = "error" THEN Fail(m, v.v) ELSE Advance(Assign(VisitSeq(m, Calls(s.e)), s.x, v))
     [] s.k = "call" -> \* f(args) as a statement (mode drop), printed (print), assigned (set / temp, x), or as an operand of
                       \* the expression e that is printed or assigned (printexpr / setexpr / tempexpr): e refers to the
                       \* returned value as the variable "$ret"
@@ -336,13 +360,19 @@ Exec(m, s) ==
                       ELSE SetThread(m1, <<act>> \o CurThread(m1))
     [] s.k = "ret" -> IF CurAct(m).kind \notin {"fn", "game"} THEN Fail(m, "return outside a function")
                       ELSE LET v == IF s.e.k = "void" THEN [t |-> "void"] ELSE Eval(m, s.e) IN
-                           IF v.t = "error" THEN Fail(m, v.v) ELSE FnReturn(m, v)
+                           IF v.t = "error" THEN Fail(m, v.v)
+                           ELSE FnReturn(IF s.e.k = "void" THEN m ELSE VisitSeq(m, Calls(s.e)), v)
     [] s.k = "temp" -> LET v == Eval(m, s.e)
-                           a == CurAct(m) IN
-                       IF v.t = "error" THEN Fail(m, v.v) ELSE Advance(SetAct(m, [a EXCEPT !.temps = Put(a.temps, s.x, v)]))
-    [] s.k = "if"  -> LET hit == {j \in 1..Len(s.br) : s.br[j].c.k = "else" \/ TruthyV(Eval(m, s.br[j].c))} IN
-                      IF hit = {} THEN Advance(m)
-                      ELSE PushFrame(Advance(m), s.br[CHOOSE j \in hit : \A j2 \in hit : j <= j2].b)
+                           mc == VisitSeq(m, Calls(s.e))
+                           a == CurAct(mc) IN
+                       IF v.t = "error" THEN Fail(m, v.v) ELSE Advance(SetAct(mc, [a EXCEPT !.temps = Put(a.temps, s.x, v)]))
+    [] s.k = "if"  -> LET hit == {j \in 1..Len(s.br) : s.br[j].c.k = "else" \/ TruthyV(Eval(m, s.br[j].c))}
+                          first == IF hit = {} THEN Len(s.br) ELSE CHOOSE j \in hit : \A j2 \in hit : j <= j2
+                          \* (the conditions are evaluated one after the other until one holds: so many calls are made)
+                          tried == [j \in 1..first |-> IF s.br[j].c.k = "else" THEN [k |-> "lit"] ELSE s.br[j].c]
+                          mc == VisitSeq(m, CallsOfAll(tried, 1)) IN
+                      IF hit = {} THEN Advance(mc)
+                      ELSE PushFrame(Advance(mc), s.br[first].b)
     [] s.k = "seq" -> LET n == Get(m.seqc, s.id, 0)
                           len == Len(s.alts)
                           idx == CASE s.mode = "stop" -> IF n >= len THEN len ELSE n + 1
